@@ -97,6 +97,14 @@ var layoutEnumBases = [][]string{
 	{"S1F1", "W", "<", "A", "[", "1", "..", "]", "str", ">", ".", "S1F1", "<", "U2", "a", "...", ">", "."},
 	{"S1F1", "W", "H->E", "Lot/Wafer", "<", "U1", "5", ">", ".", "S5F1", "a/b/", ".", "S5F3", "/x", "<", "L", ">", ".", "S5F5", "W", "x/y/z", "."},
 }
+var layoutEnumBroken = [][]string{
+	{"S1F1", "<", "L", ">", "s2f2", "."},
+	{"S1F1", "W", "<", "L", ">", "foo.", "<", "L", ">", "."},
+	{"S1F1", "<", "U1", "1", ">", `"y z"`, "."},
+	{"S1F1", "<", "L", ">", ".5", "."},
+	{"S1F1", "<", "L", ">", "h->e", "W", "."},
+	{"S1F1", "<", "L", "<", "L", ">", "s2f2", ">", "."},
+}
 var layoutEnumSeps = []string{"", "  ", "\t", "\n", "\r\n", "\r", " \n\t ", " //c\n", "//c\r\n", " // é <L \"\n", "\n\n// . S9F9\n", "\v",
 	"\u00a0", "\u2003\u2003", " \u0085"} // white space of two and three bytes (the header skips it, the message text does not)
 
@@ -118,6 +126,31 @@ func driverLayoutEnum(c *Ctx) {
 		for _, name := range []string{"N" + string(rune(ch)), "N" + string(rune(ch)) + "x", "Nm" + string(rune(ch)) + string(rune(ch))} {
 			for _, tail := range []string{"\n<U1 5> .", "\n."} {
 				one("S1F1 W H->E "+name+tail, "S1F1 W H->E "+name+"//c d <L>"+tail, "name-comment")
+			}
+		}
+	}
+	// texts that are wrong in one place - the terminator is missing behind the item - with a next token that the header
+	// scanner and the text scanner read differently: every gap gets every separator, the diagnostics must stay what they are
+	for _, toks := range layoutEnumBroken {
+		t1 := strings.Join(toks, " ")
+		for gap := 1; gap <= len(toks); gap++ {
+			for _, sep := range layoutEnumSeps {
+				if sep == "" {
+					continue
+				}
+				var sb strings.Builder
+				for i, t := range toks {
+					if i == gap {
+						sb.WriteString(sep)
+					} else if i > 0 {
+						sb.WriteString(" ")
+					}
+					sb.WriteString(t)
+				}
+				if gap == len(toks) {
+					sb.WriteString(sep)
+				}
+				one(t1, sb.String(), "broken-gap")
 			}
 		}
 	}
